@@ -366,7 +366,7 @@ def run(ctx):
     reps = layout.rep_trees() + layout.string_position_trees()
     items = layout.definition_items(True)
     if quick:
-        items = items[::2]
+        items = items[::3]
     groups = [("depth1", mk([layout.program_of(t) for t in trees])), ("representatives", mk([layout.program_of(t) for t in reps])), ("definitions", mk(items))]
     if not quick:
         groups.append(("depth2", mk([layout.program_of(t) for t in c17.depth2_quick()])))
